@@ -137,8 +137,8 @@ mutual
 end
 
 /-- the former witness of the disagreement: a yield inside `async with` -/
-example : containsYield [.with_ true [] [] [.expr (.yield ⟨3, 8, 3, 15⟩) ⟨3, 8, 3, 15⟩] ⟨2, 4, 3, 15⟩] = true ∧
-    (yieldLine [.with_ true [] [] [.expr (.yield ⟨3, 8, 3, 15⟩) ⟨3, 8, 3, 15⟩] ⟨2, 4, 3, 15⟩]).isSome = true := by
+example : containsYield [.with_ true [] [] [.expr (.yield [] ⟨3, 8, 3, 15⟩) ⟨3, 8, 3, 15⟩] ⟨2, 4, 3, 15⟩] = true ∧
+    (yieldLine [.with_ true [] [] [.expr (.yield [] ⟨3, 8, 3, 15⟩) ⟨3, 8, 3, 15⟩] ⟨2, 4, 3, 15⟩]).isSome = true := by
   simp [containsYield, containsYieldStmt, yieldLine, yieldInStmt, yieldInExpr, Option.orElse]
 
 /-- **C03 (dependencies are the named parameters WITHOUT a default value, except `self` and
